@@ -295,6 +295,9 @@ func NewPool(kt string, code uint, variant string) *Pool {
 			s.JWS = &JWSOpts{SigMut: func(b []byte) []byte { return append(append([]byte{}, b...), 0) }}
 		}, nil)
 		forged("h", func(s *OpSpec) { s.RevealKey = s.SignKey; s.SignKey = k("a0") }, func(a *sidetree.Op) { a.ParseOK = false })
+		// (w) committed key in the payload, signed by the attacker, and a signed window that fails at every grid time:
+		// the out-of-window shortcut must not be reachable without a valid signature
+		forged("w", func(s *OpSpec) { s.PayloadKey = s.SignKey; s.SignKey = k("a0"); s.From, s.Until = LateFrom, LateUntil }, nil)
 		if b.typ == "deactivate" {
 			forged("g", func(s *OpSpec) { s.SignedSuffix = "EiOtherSuffix" }, func(a *sidetree.Op) { a.ParseOK = false; a.Authorized = true })
 		}
